@@ -1,4 +1,5 @@
 import TunnoxModel.Spec.C12
+import TunnoxModel.Proofs.Src
 /-! Helper lemmas for C12 (core Lean only). -/
 namespace Tunnox.C12
 open Gen Gen.iocopy.UDP
@@ -1569,5 +1570,146 @@ theorem holdsUdp_of (sc : UdpSpecCase) (chunks : List Bytes) (hflat : chunks.fla
       simp
   simp only [holdsUdp, udpObs, ret, c2, c3, c4]
   rfl
+
+/-! ### SOCKS5 UDP tunnel codec -/
+
+/-- The receive loop on the flat byte string. -/
+def parseS5 : Nat → Bytes → S5Obs
+  | 0, _ => ⟨[], .fuel⟩
+  | f + 1, hi :: lo :: body =>
+    if hi.toNat * 256 + lo.toNat > 65535 then ⟨[], .tooLarge⟩
+    else if body.length < hi.toNat * 256 + lo.toNat then ⟨[], .data⟩
+    else ⟨body.take (hi.toNat * 256 + lo.toNat) :: (parseS5 f (body.drop (hi.toNat * 256 + lo.toNat))).pk,
+          (parseS5 f (body.drop (hi.toNat * 256 + lo.toNat))).stop⟩
+  | _ + 1, _ => ⟨[], .len⟩
+
+theorem readFull_rest (s : Src) (n : Nat) (h : n ≤ s.flat.length) :
+    ∃ r, s.readFull n = .ok (s.flat.take n) r ∧ r.flat = s.flat.drop n ∧ r.tail = s.tail := by
+  refine ⟨⟨(readFullChunks s.pending n).2.1, s.tail⟩, ?_, (readFullChunks_spec s.pending n).2.1, rfl⟩
+  rw [readFull_flat, if_pos h]
+
+theorem readFull_short (s : Src) (n : Nat) (h : ¬ n ≤ s.flat.length) : s.readFull n = .short s.flat s.tail := by
+  rw [readFull_flat, if_neg h]
+
+/-- `ReceivePacket` depends only on the bytes of the stream, not on how they were cut into reads. -/
+theorem receivePacket_flat (s : Src) :
+    (s.flat.length < 2 → receivePacket s = .fail .len) ∧
+    (∀ hi lo body, s.flat = hi :: lo :: body →
+      (hi.toNat * 256 + lo.toNat > 65535 → receivePacket s = .fail .tooLarge) ∧
+      (¬ hi.toNat * 256 + lo.toNat > 65535 → body.length < hi.toNat * 256 + lo.toNat → receivePacket s = .fail .data) ∧
+      (¬ hi.toNat * 256 + lo.toNat > 65535 → ¬ body.length < hi.toNat * 256 + lo.toNat →
+        ∃ r, receivePacket s = .pkt (body.take (hi.toNat * 256 + lo.toNat)) r ∧
+          r.flat = body.drop (hi.toNat * 256 + lo.toNat) ∧ r.tail = s.tail)) := by
+  refine ⟨fun h => ?_, fun hi lo body hf => ?_⟩
+  · unfold receivePacket
+    rw [readFull_short s 2 (by omega)]
+  · obtain ⟨r1, h1, h1f, h1t⟩ := readFull_rest s 2 (by rw [hf]; simp)
+    have htk : s.flat.take 2 = [hi, lo] := by rw [hf]; rfl
+    have hdr : s.flat.drop 2 = body := by rw [hf]; rfl
+    rw [htk] at h1
+    rw [hdr] at h1f
+    unfold receivePacket
+    rw [h1]
+    dsimp only
+    have e0 : ([hi, lo] : Bytes).getD 0 0 = hi := rfl
+    have e1 : ([hi, lo] : Bytes).getD 1 0 = lo := rfl
+    rw [e0, e1]
+    refine ⟨fun hbig => by rw [if_pos hbig], fun hbig hshort => ?_, fun hbig hfull => ?_⟩
+    · rw [if_neg hbig, readFull_short r1 _ (by rw [h1f]; omega)]
+    · rw [if_neg hbig]
+      obtain ⟨r2, h2, h2f, h2t⟩ := readFull_rest r1 (hi.toNat * 256 + lo.toNat) (by rw [h1f]; omega)
+      rw [h2]
+      dsimp only
+      rw [h1f] at h2f ⊢
+      exact ⟨r2, rfl, h2f, by rw [h2t, h1t]⟩
+
+/-- **Chunk independence** of the receive loop: any partition of the stream into reads — one record per
+read, records split across reads, SEVERAL RECORDS IN ONE READ — gives the same datagrams. -/
+theorem recvAll_flat (f : Nat) : ∀ s : Src, recvAll f s = parseS5 f s.flat := by
+  induction f with
+  | zero => intro s; rfl
+  | succ f ih =>
+    intro s
+    have hp := receivePacket_flat s
+    unfold recvAll
+    match hfl : s.flat with
+    | [] =>
+      rw [hp.1 (by rw [hfl]; simp)]; rfl
+    | [b] =>
+      rw [hp.1 (by rw [hfl]; simp)]; rfl
+    | hi :: lo :: body =>
+      obtain ⟨a, b, c⟩ := hp.2 hi lo body hfl
+      rw [parseS5]
+      by_cases hbig : hi.toNat * 256 + lo.toNat > 65535
+      · rw [a hbig, if_pos hbig]
+      · rw [if_neg hbig]
+        by_cases hshort : body.length < hi.toNat * 256 + lo.toNat
+        · rw [b hbig hshort, if_pos hshort]
+        · obtain ⟨r, hr, hrf, _⟩ := c hbig hshort
+          rw [hr, if_neg hshort]
+          dsimp only
+          rw [ih r, hrf]
+
+theorem s5_prefix_small (hi lo : Byte) : ¬ hi.toNat * 256 + lo.toNat > 65535 := by
+  have := hi.toNat_lt; have := lo.toNat_lt; omega
+
+/-- One whole record at the front comes out as one datagram; the loop goes on behind it. -/
+theorem parseS5_encode1 (f : Nat) (d rest : Bytes) (hwf : d.length ≤ 65535) :
+    parseS5 (f + 1) (encode1 d ++ rest) = ⟨d :: (parseS5 f rest).pk, (parseS5 f rest).stop⟩ := by
+  show parseS5 (f + 1) (UInt8.ofNat (d.length / 256) :: UInt8.ofNat d.length :: (d ++ rest)) = _
+  rw [parseS5]
+  rw [prefix_val d hwf, if_neg (by omega), if_neg (by simp)]
+  simp
+
+/-- **Cut theorem for the receive loop**: the encoding ended at any byte offset gives exactly the
+datagrams complete before the cut and then fails in the read the cut falls into; the loop needs no
+more iterations than there are bytes. -/
+theorem parseS5_cut (ds : List Bytes) (hwf : ds.all wfS5 = true) :
+    ∀ (cut f : Nat), ((encodeAll ds).take cut).length < f →
+      parseS5 f ((encodeAll ds).take cut) = ⟨completeBefore ds cut, cutStage ds cut⟩ := by
+  induction ds with
+  | nil =>
+    intro cut f hf
+    cases f with
+    | zero => omega
+    | succ f => simp [encodeAll_nil, parseS5, completeBefore, cutStage]
+  | cons d ds ih =>
+    intro cut f hf
+    have hd : d.length ≤ 65535 := by simp [wfS5] at hwf; exact hwf.1
+    have hds : ds.all wfS5 = true := by simp at hwf ⊢; exact hwf.2
+    cases f with
+    | zero => omega
+    | succ f =>
+      rw [encodeAll_cons] at hf ⊢
+      simp only [completeBefore, cutStage]
+      by_cases hc : 2 + d.length ≤ cut
+      · rw [if_pos hc, if_pos hc]
+        have htk : (encode1 d ++ encodeAll ds).take cut = encode1 d ++ (encodeAll ds).take (cut - (2 + d.length)) := by
+          rw [List.take_append, encode1_length, List.take_of_length_le (by rw [encode1_length]; exact hc)]
+        rw [htk] at hf ⊢
+        rw [parseS5_encode1 f d _ hd]
+        have hlen : ((encodeAll ds).take (cut - (2 + d.length))).length < f := by
+          rw [List.length_append, encode1_length] at hf; omega
+        rw [ih hds _ f hlen]
+      · rw [if_neg hc, if_neg hc]
+        have hlt : cut < 2 + d.length := Nat.lt_of_not_le hc
+        have htk : (encode1 d ++ encodeAll ds).take cut = (encode1 d).take cut := by
+          rw [List.take_append_of_le_length (by rw [encode1_length]; omega)]
+        rw [htk]
+        match cut, hlt with
+        | 0, _ => rfl
+        | 1, _ => rfl
+        | k + 2, hk =>
+          show parseS5 (f + 1) (UInt8.ofNat (d.length / 256) :: UInt8.ofNat d.length :: d.take k) = _
+          rw [parseS5]
+          rw [prefix_val d hd, if_neg (by omega), if_pos (by rw [List.length_take]; omega)]
+          simp
+
+theorem sendPacket_wire (ds : List Bytes) : ((ds.map sendPacket).flatten).flatten = encodeAll ds := by
+  induction ds with
+  | nil => rfl
+  | cons d ds ih =>
+    rw [encodeAll_cons, ← ih]
+    simp [sendPacket, encode1]
 
 end Tunnox.C12
